@@ -158,3 +158,38 @@ def bk(st, K, a):
         else:
             gs.append(specs.all_children(st, kind, a[f], lambda x: core.bkv(x.view), "bk." + f))
     return z3.And(gs) if gs else z3.BoolVal(True)
+
+
+def selectors(st, K, a, q):
+    """which child receives a datum with quantity q (the routing rules of the module docstring), as
+    predicates: {field: Bool} for single slots, {field: key -> Bool} for families.  Shared by the
+    row-wise fill specification and by the vectorised-fill obligations (C03)."""
+    notnan = z3.Not(q.nan)
+    out = {}
+    if "nanflow" in a:
+        out["nanflow"] = q.nan
+    if K == "Bin":
+        low, high = a["low"].fl, a["high"].fl
+        n = a["values"].length
+        out["underflow"] = z3.And(notnan, q.lt(low))
+        out["overflow"] = z3.And(notnan, q.ge(high))
+        inrange = z3.And(q.isfin(), q.r >= low.r, q.r < high.r)
+        delta = st.fresh("binwidth", z3.RealSort())
+        st.add(delta * z3.ToReal(n) == high.r - low.r, delta > 0)
+        out["values"] = lambda i: z3.And(inrange, low.r + z3.ToReal(i) * delta <= q.r, q.r < low.r + (z3.ToReal(i) + 1) * delta)
+    elif K in ("CentrallyBin", "IrregularlyBin", "Stack"):
+        bins = a["bins"]
+        n = bins.length
+        c = lambda i: bins.val(i).items[0].fl
+        if K == "CentrallyBin":
+            mid = lambda i: Fl.fin((c(i).r + c(i + 1).r) / 2)
+            out["bins"] = lambda i: z3.And(notnan, z3.Or(i == 0, q.ge(mid(i - 1))), z3.Or(i == n - 1, q.lt(mid(i))))
+        elif K == "IrregularlyBin":
+            out["bins"] = lambda i: z3.And(notnan, q.ge(c(i)), z3.Or(i == n - 1, q.lt(c(i + 1))))
+        else:
+            out["bins"] = lambda i: z3.And(notnan, q.ge(c(i)))
+    elif K in ("Label", "UntypedLabel"):
+        out["pairs"] = lambda k: z3.BoolVal(True)
+    elif K in ("Index", "Branch"):
+        out["values"] = lambda k: z3.BoolVal(True)
+    return out
